@@ -153,8 +153,8 @@ def s_add(a, b):
         return b
     if _is_conc(b) and cnum(b) == 0:
         return a
-    x, y, _ = _coerce2(a, b)
-    return wrap(x + y)
+    x, y, ints = _coerce2(a, b)
+    return wrap(z3.simplify(x + y) if ints else x + y)
 
 
 def s_sub(a, b):
@@ -162,10 +162,10 @@ def s_sub(a, b):
         return cnum(a) - cnum(b)
     if _is_conc(b) and cnum(b) == 0:
         return a
-    x, y, _ = _coerce2(a, b)
+    x, y, ints = _coerce2(a, b)
     if _is_conc(a) and cnum(a) == 0:
         return wrap(-y)
-    return wrap(x - y)
+    return wrap(z3.simplify(x - y) if ints else x - y)
 
 
 def s_mul(a, b):
@@ -498,8 +498,9 @@ def to_real(x):
     return wrap(_real(_term(x)))
 
 
-def ssqrt(x):
-    """sqrt as an uninterpreted function; axioms instantiated at this ground term"""
+def ssqrt(x, square_axiom=True):
+    """sqrt as an uninterpreted function; axioms instantiated at this ground term (sqrt(t)^2 = t only on request:
+    it makes the query nonlinear)"""
     if not has_ctx():
         import math
         return math.sqrt(float(x))
@@ -517,7 +518,10 @@ def ssqrt(x):
     t = _real(x.t)
     y = uf("sqrt", R, R)(t)
     c = cur()
-    c.axiom(z3.Implies(t >= 0, z3.And(y >= 0, y * y == t)), "sqrt")
+    if square_axiom:
+        c.axiom(z3.Implies(t >= 0, z3.And(y >= 0, y * y == t)), "sqrt")
+    tq = z3.Real("t!sqrt")
+    c.axiom_global(z3.ForAll([tq], uf("sqrt", R, R)(tq) >= 0, patterns=[uf("sqrt", R, R)(tq)]), "sqrt.nonneg")
     c.note_uf("sqrt", t)
     return wrap(y)
 
@@ -761,8 +765,9 @@ class SSeq:
         if isinstance(k, (int, SI, np.integer)):
             n = self._len
             if is_sym(k) or is_sym(n):
-                kk = site(k < 0, k + n, k) if (is_sym(k) or k < 0) else k
+                kk = norm_index(k, n)
                 cur().safety("safe.index", sand(0 <= kk, kk < n))
+                mark_index(kk)
                 return self._get(kk)
             kk = k + n if k < 0 else k
             if not (0 <= kk < n):
@@ -825,6 +830,54 @@ def ite_any(c, a, b):
     return site(c, a, b)
 
 
+def known(cond):
+    """True / False when the path hypotheses decide `cond` (quick solver query, no fork), else None"""
+    if isinstance(cond, (bool, np.bool_)):
+        return bool(cond)
+    if not has_ctx():
+        return None
+    c = cur()
+    t = _term(cond)
+    if not c._feasible(z3.Not(t)):
+        return True
+    if not c._feasible(t):
+        return False
+    return None
+
+
+def clip(v, n):
+    """max(0, min(v, n)) with the case distinctions resolved by the path hypotheses where possible"""
+    lo = known(v >= 0)
+    hi = known(v <= n)
+    if lo is True and hi is True:
+        return v
+    if hi is False:
+        return n
+    if lo is False:
+        return 0
+    return smax2(0, smin2(v, n))
+
+
+def mark_index(k):
+    """an index term the code reads at: available as an instantiation trigger for quantified contract clauses"""
+    if is_sym(k) and has_ctx():
+        c = cur()
+        if not c.quiet:
+            c.axiom(tr(k), "tr")
+
+
+def norm_index(k, n):
+    """python's negative-index rule; the case distinction is resolved by the path hypotheses where possible"""
+    if not is_sym(k):
+        return k + n if k < 0 else k
+    neg = known(k < 0)
+    if neg is False:
+        return k
+    if neg is True:
+        return k + n
+    return site(k < 0, k + n, k)
+
+
 def slice_bounds(sl, n):
     """python slice semantics for step 1 (and symbolic bounds): returns (start, stop) clipped to [0,n]"""
     if sl.step not in (None, 1):
@@ -834,8 +887,8 @@ def slice_bounds(sl, n):
         if v is None:
             return default
         if is_sym(v) or is_sym(n):
-            v2 = site(v < 0, v + n, v) if (is_sym(v) or v < 0) else v
-            return smax2(0, smin2(v2, n))
+            v2 = site(v < 0, v + n, v) if is_sym(v) else (v + n if v < 0 else v)
+            return clip(v2, n)
         v2 = v + n if v < 0 else v
         return max(0, min(v2, n))
     start = norm(sl.start, 0)
@@ -843,10 +896,21 @@ def slice_bounds(sl, n):
     return start, stop
 
 
+def span(start, stop):
+    if is_sym(start) or is_sym(stop):
+        k = known(stop >= start)
+        if k is True:
+            return stop - start
+        if k is False:
+            return 0
+        return smax2(0, stop - start)
+    return max(0, stop - start)
+
+
 def slice_seq(seq, sl):
     n = seq.length()
     start, stop = slice_bounds(sl, n)
-    ln = smax2(0, stop - start) if (is_sym(start) or is_sym(stop)) else max(0, stop - start)
+    ln = span(start, stop)
     return SSeq(ln, lambda k: seq.get(k + start), seq.elem_kind)
 
 
@@ -880,6 +944,8 @@ def as_seq(x):
 
 def _pick(lst, k):
     if isinstance(k, (int, np.integer)):
+        if not (0 <= k < len(lst)):
+            return 0   # unchecked (spec-side) read outside a concrete list: guarded by the caller
         return lst[k]
     if len(lst) == 0:
         raise OutOfReach("symbolic index into empty concrete list")
@@ -940,8 +1006,9 @@ class SArr:
     def _norm_index(self, k):
         n = self.shape[0]
         if is_sym(k) or is_sym(n):
-            kk = site(k < 0, k + n, k) if (is_sym(k) or k < 0) else k
+            kk = norm_index(k, n)
             cur().safety("safe.index", sand(0 <= kk, kk < n))
+            mark_index(kk)
             return kk
         kk = k + n if k < 0 else k
         if not (0 <= kk < n):
@@ -964,7 +1031,7 @@ class SArr:
             if k0.step not in (None, 1):
                 raise OutOfReach("strided slice of symbolic array")
             start, stop = slice_bounds(k0, self.shape[0])
-            ln = smax2(0, stop - start) if (is_sym(start) or is_sym(stop)) else max(0, stop - start)
+            ln = span(start, stop)
             cell = self._cell
             if rest:
                 rr = rest if len(rest) > 1 else rest[0]
@@ -981,6 +1048,7 @@ class SArr:
             n = self.shape[0]
             # obligation: every index in range
             kq = fresh("int", "ix")
+            mark_index(kq)
             cur().safety("safe.index", simplies(sand(0 <= kq, kq < m), _in_range(ids.get(kq), n)), quant=[kq])
             g0 = cell[0]  # fancy indexing copies: freeze current content
 
@@ -1217,3 +1285,132 @@ def subst_val(v, k, q):
     if isinstance(v, enum.Enum):
         return v
     raise OutOfReach("comprehension element of type %s cannot be re-indexed" % type(v).__name__)
+
+
+def auto_patterns(body, vars_):
+    """instantiation patterns for a quantified body: applications of uninterpreted functions that take a bound
+    variable directly as an argument (array reads a(k), ghost functions nn(i), list reads L(k)).  Returns a list
+    suitable for z3.ForAll(patterns=...) -- one multi-pattern covering all bound variables -- or None."""
+    vids = {v.get_id(): v for v in vars_}
+    found = {}   # var id -> list of candidate terms
+    stack = [body]
+    seen = set()
+    while stack:
+        t = stack.pop()
+        if t.get_id() in seen:
+            continue
+        seen.add(t.get_id())
+        if z3.is_quantifier(t):
+            continue
+        if z3.is_app(t):
+            if t.decl().kind() == z3.Z3_OP_UNINTERPRETED and t.num_args() > 0:
+                direct = [a for a in t.children() if a.get_id() in vids]
+                others_ok = all(a.get_id() in vids or (_closed(a, vids) and not _has_ite(a)) for a in t.children())
+                if direct and others_ok:
+                    for a in direct:
+                        found.setdefault(a.get_id(), []).append(t)
+            stack.extend(t.children())
+    if set(found) != set(vids):
+        return None
+    # single bound variable: every candidate is an alternative pattern (any matching read triggers the instance)
+    if len(vids) == 1:
+        vid = next(iter(vids))
+        cands, seen_c = [], set()
+        for t in sorted(found[vid], key=lambda x: (x.num_args(), str(x))):
+            if t.get_id() not in seen_c:
+                seen_c.add(t.get_id())
+                cands.append(t)
+        return cands[:16]
+    # several variables: one multi-pattern with one candidate per variable
+    pats = []
+    used = set()
+    for vid in vids:
+        cands = sorted(found[vid], key=lambda x: (x.num_args(), str(x)))
+        t = cands[0]
+        if t.get_id() not in used:
+            used.add(t.get_id())
+            pats.append(t)
+    try:
+        return [z3.MultiPattern(*pats)] if len(pats) > 1 else [pats[0]]
+    except z3.Z3Exception:
+        return None
+
+
+def _has_ite(t):
+    stack = [t]
+    while stack:
+        x = stack.pop()
+        if z3.is_app(x):
+            if x.decl().kind() == z3.Z3_OP_ITE:
+                return True
+            stack.extend(x.children())
+    return False
+
+
+def _closed(t, vids):
+    stack = [t]
+    while stack:
+        x = stack.pop()
+        if x.get_id() in vids:
+            return False
+        if z3.is_app(x):
+            stack.extend(x.children())
+    return True
+
+
+def _find_shift(body, v):
+    """an argument `v + t` (t free of v) of an uninterpreted function application inside body -> t"""
+    stack = [body]
+    seen = set()
+    vid = {v.get_id(): v}
+    while stack:
+        x = stack.pop()
+        if x.get_id() in seen:
+            continue
+        seen.add(x.get_id())
+        if z3.is_quantifier(x):
+            continue
+        if z3.is_app(x):
+            if x.decl().kind() == z3.Z3_OP_UNINTERPRETED:
+                for a in x.children():
+                    if z3.is_int(a) and not _closed(a, vid) and a.get_id() != v.get_id():
+                        d = z3.simplify(a - v)
+                        if _closed(d, vid):
+                            return d
+            stack.extend(x.children())
+    return None
+
+
+def forall_t(vars_, body):
+    """z3 ForAll with predictable patterns when available; a single bound variable that only occurs shifted
+    (a(k + t)) is re-parametrised (k' = k + t) so that the array read becomes a direct pattern a(k')"""
+    pats = auto_patterns(body, vars_)
+    if not pats and len(vars_) == 1:
+        v = vars_[0]
+        d = _find_shift(body, v)
+        if d is not None:
+            v2 = z3.Int(str(v) + "_sh")
+            body2 = z3.simplify(z3.substitute(body, (v, v2 - d)))
+            pats2 = auto_patterns(body2, [v2])
+            if pats2:
+                try:
+                    return z3.ForAll([v2], body2, patterns=pats2)
+                except z3.Z3Exception:
+                    pass
+    if pats:
+        try:
+            return z3.ForAll(vars_, body, patterns=pats)
+        except z3.Z3Exception:
+            pass
+    return z3.ForAll(vars_, body)
+
+
+def tr(k):
+    """trigger predicate (always true): gives quantified contract clauses a ground term per Skolem index, so that
+    pattern-based instantiation of 'inverse / witness' axioms is predictable"""
+    f = uf("tr", I, B)
+    c = cur()
+    q = z3.Int("k!tr")
+    c.axiom_global(z3.ForAll([q], f(q), patterns=[f(q)]), "tr")
+    c.axiom_global(f(z3.IntVal(0)), "tr0")
+    return f(_term(k))
